@@ -5,7 +5,6 @@ package main
 // Everything is driven through Lua-level calls of the real library functions (protected, under a deadline).
 
 import (
-	"context"
 	"fmt"
 	"strconv"
 	"strings"
@@ -108,7 +107,7 @@ func newC18World() *c18World {
 func (w *c18World) call(fn string, nret int, args ...lua.LValue) (res []lua.LValue, status string) {
 	L := w.L
 	top := L.GetTop()
-	ctx, cancel := context.WithTimeout(context.Background(), 20*time.Second)
+	ctx, cancel := hangCtx(20 * time.Second)
 	defer cancel()
 	L.SetContext(ctx)
 	defer L.RemoveContext()
